@@ -52,7 +52,7 @@ CHECKS = {
         "(prefix/extension of the bound text, other family member, wrong width, look-alike non-member, operand-less defining instruction, swapped names); capture-free "
         "$or/$not/times groups are interleaved so that stray capturing parentheses shift the numbering. Verdict and spans are compared with a reference matcher that "
         "threads an environment and uses an explicit architectural register table.",
-        note="Trusted: reference matcher incl. the register table, Hypothesis. Deref-field captures are outside the statement; .8H exists only for &genreg.",
+        note="Trusted: reference matcher incl. the register table, Hypothesis. Deref-field captures are asserted only on operands with exactly the rule's components; .8H exists only for &genreg.",
         ref="DESIGN.md 4/C05",
     ),
     "C07": dict(
@@ -200,6 +200,28 @@ NOT_APPLICABLE = []
 ALL = [f"C{n:02d}" for n in range(1, 21)]
 
 
+CGF = ["C01", "C02", "C03", "C04", "C05", "C06", "C07", "C09", "C11", "C12", "C13", "C16", "C18", "C19"]
+COMMON_TECH = ("; every campaign shard is a fresh process whose first JASM operation is an unusual 'prelude' (style intel/att, address range, full-match flags, sections, "
+               "captures+macros, failing operations, instance reuse), one API call in four is repeated on the same MasterOfPuppets and must give the same answer, and the saved "
+               "failing inputs of confirmed seeded changes (corpus/) are replayed first")
+CGF_TECH = "; the thorough tier adds a coverage-guided stage (atheris/libFuzzer driving the same Hypothesis strategy through fuzz_one_input with JASM's own Python code instrumented, same oracle inside the target)"
+ADD_TEXT = {
+    "C01": " Exhaustive sub-parts: a small-scope grid (names over {a,ab,b}, operands over {x,xy,y}) and a 64-item literal rule whose only occurrence straddles each of 17 plausible chunk sizes (2^8..2^17, round decimals) of a long listing, intact and with one instruction replaced.",
+    "C03": " Further levels: an operator nested directly in the same operator with the window permuted (an outer sibling between the inner group's instructions), and a $deref as child of an operand-level $and/$and_any_order followed by a nested operator.",
+    "C04": " A double negation $not[$not[X]] (which still consumes exactly one instruction) is one of the positions.",
+    "C05": " Captures in $deref fields (fields written in a drawn key order, names reused in fields of the same kind) are judged by a component-wise oracle on operands that have exactly the rule's components.",
+    "C08": " Sub-part: synthetic listings of every length c-1, c, c+1 around 17 plausible chunk sizes (up to 131 073 instructions) must give exactly the prescribed stream.",
+    "C10": " Sub-part: synthetic listings of every length c-1, c, c+1 around 17 plausible chunk sizes (up to 131 073 instructions) must give exactly the prescribed stream.",
+    "C11": " Sub-parts: a 33 000-instruction listing with occurrences around multiples of 32 768, and for each of 17 plausible chunk sizes a long listing whose occurrences straddle that index, matched by four rules (pair, ordered alternatives whose leftmost match needs the instruction past the cut, a greedy variable-length run, a 64-item rule).",
+    "C12": " The same laws are checked on long (> 64 KiB) listings whose occurrence straddles a plausible chunk size, in all 8 modes.",
+    "C13": " Base rules contain $deref items, so formals also stand for values of a mapping directly under a key.",
+    "C14": " A second family of generated histories rewrites the rule, listing, binary and macro-library files themselves in place (same path, same byte length, same second) between operations; every match step is compared with the same operation on a private copy of the files as they are at that step, run in a separately forked process.",
+    "C16": " Edits include byte columns wider than 7 bytes (objdump --insn-width), comments that end in a colon or look like a section header, and every stream comparison is repeated with valid_addr_range and a sections list configured.",
+    "C17": " In addition to the random campaign every (input mode, fault) cell is evaluated on every run (deterministic grid; thorough: three bases, API and CLI).",
+    "C19": " Reference names include non-identifiers (@64bit_, @8_), references spliced into longer mnemonic/operand names, and a reference to a macro that is defined but applied before its user (must be reported or expanded, never kept).",
+}
+
+
 def main():
     checks = []
     for pid in ALL:
@@ -214,9 +236,9 @@ def main():
                 "evidence_file": f"evidence/{pid}.json",
                 "replay_cmd_template": f"./check {pid} --replay {{path}}",
                 "engine": "hypothesis-pbt",
-                "level_claimed": {"category": c["cat"], "text": c["text"], "design_ref": c["ref"]},
+                "level_claimed": {"category": c["cat"], "text": c["text"] + ADD_TEXT.get(pid, ""), "design_ref": c["ref"]},
                 "level_note": c["note"],
-                "technique": c["technique"],
+                "technique": c["technique"] + COMMON_TECH + (CGF_TECH if pid in CGF else ""),
             }
         )
     na = list(NOT_APPLICABLE)
@@ -241,7 +263,13 @@ def main():
                 "path": "vlib/runner.py",
                 "serves_properties": sorted(claimed),
                 "kind_free_text": "Hypothesis 6.168 property-based testing: sharded seeded campaigns (16 processes), explicit oracles (reference matcher, reference normaliser, round trips, metamorphic and differential relations), shrinking to replay files, known-findings signatures",
-            }
+            },
+            {
+                "name": "atheris-coverage-guided",
+                "path": "vlib/cgf.py",
+                "serves_properties": CGF,
+                "kind_free_text": "atheris 3.1 (libFuzzer) as a stage of the thorough tier: 16 workers, the fuzz target is hypothesis' fuzz_one_input of the property's own strategy (inputs stay inside the property's domain), JASM's Python modules are instrumented for edge coverage, the property's oracle runs inside the target; a failing case is written as the same replay file as everywhere else",
+            },
         ],
         "checks": checks,
         "not_applicable": na,
